@@ -417,7 +417,7 @@ def check_property(pid, tier, repo, scratch, seed):
         try:
             import replay_engine
             recs = [{'unit': u['unit']} for u in units]
-            cross = replay_engine.search(pid, recs, repo, scratch, seeds=30000 + seed, steps=100, tags=pm.get('replay_tags'))
+            cross = replay_engine.search(pid, recs, repo, scratch, seeds=200000 + seed, steps=120, tags=pm.get('replay_tags'))
         except Exception as ex:
             cross = {'found': False, 'error': repr(ex)}
         if cross.get('found'):
